@@ -62,7 +62,7 @@ struct World {
     clocks: BTreeMap<u64, MockClock>,      // slot -> mock (steered clocks only)
     ids: BTreeMap<u64, ClockId>,           // slot -> controller id (also of removed clocks)
     spare: Vec<ClockId>,                   // identifiers the controller has never seen
-    links: BTreeMap<(u64, u64), (Link, (u64, u64))>, // by ordered end points; with the creation order (Forward = first -> second)
+    links: BTreeMap<(u64, u64), (Link, (u64, u64), bool)>, // by ordered end points; with the creation order (Forward = first -> second); tracked
     rng: Rng,
     query_panics: std::cell::Cell<u64>,
     last_panic: std::cell::RefCell<Option<String>>,
@@ -156,6 +156,71 @@ impl World {
     fn fmax_ok(&self) -> bool {
         self.clocks.values().all(|c| { let s = c.0.lock().unwrap(); s.calls.iter().all(|k| match k { Call::SetFreq(f) => f.abs() <= s.max, _ => true }) })
     }
+    /// one measurement over `link` (created from slot ends.0 to slot ends.1; slot 0 = a clock that reads true time)
+    fn measure_link(&mut self, link: &Link, ends: (u64, u64), dir: Direction, true_ns: i128) -> Result<(), AlgoError> {
+        let (from, to) = if dir == Direction::Forward { ends } else { (ends.1, ends.0) };
+        let delay = 20_000 + self.rng.below(2_000) as i128; // ~20 us path delay with jitter
+        let m = Measurement { send_timestamp: self.reading(from, true_ns), recv_timestamp: self.reading(to, true_ns) + Duration::from_f64_seconds(delay as f64 * 1e-9), uncertainty: Duration::from_f64_seconds(1e-6) };
+        link.measurement(m, dir)
+    }
+    /// Drives the tracked link `key` to active (filter.rs measurement: >= 4 completed round trips, which are lost
+    /// whenever lib.rs steer_clocks STEPS one of the link's steered end points, plus consensus for a link to an external
+    /// clock).  Means (all public API / environment behaviour): every steered end point is made to read at least 0.25 s
+    /// ahead of true time and is measured against a temporary external reference over a temporary untracked link until
+    /// the controller knows that offset confidently (then it slews instead of stepping); the other links to external
+    /// clocks are declared unusable by their remotes meanwhile (their stale offsets would veto the consensus); then
+    /// round trips over the link.  The temporary objects are removed again.  Returns whether the link reports active.
+    fn activate(&mut self, key: (u64, u64), true_ns: &mut i128) -> Result<bool, AlgoError> {
+        let ends = self.links[&key].1;
+        let steered: Vec<u64> = [key.0, key.1].into_iter().filter(|s| self.clocks.contains_key(s)).collect();
+        let ext_link = |w: &World, k: &(u64, u64)| !(w.clocks.contains_key(&k.0) && w.clocks.contains_key(&k.1));
+        let others: Vec<(u64, u64)> = self.links.keys().copied().filter(|k| *k != key && ext_link(self, k)).collect();
+        for k in &others { self.links[k].0.external_data_update(Duration::from_f64_seconds(1e-4), None, false)?; }
+        if ext_link(self, &key) { self.links[&key].0.external_data_update(Duration::from_f64_seconds(1e-4), None, true)?; }
+        let reference = self.ctl.add_external_clock()?;
+        let mut anchors = vec![];
+        for x in &steered {
+            {
+                let mut c = self.clocks[x].0.lock().unwrap();
+                let ahead = ts(*true_ns) + Duration::from_f64_seconds(0.25);
+                if (c.now - ahead).as_seconds() < 0.0 { c.now = ahead; }
+            }
+            let l = Ctl::create_untracked_link(self.ctl.clone(), reference, self.ids[x])?;
+            l.external_data_update(Duration::from_f64_seconds(1e-4), None, true)?;
+            anchors.push((*x, l));
+        }
+        for _ in 0..12 {
+            for i in 0..anchors.len() {
+                // one reference link at a time: a clock whose offset the controller does not know yet disagrees with
+                // every established window, and a measurement without consensus is not used at all
+                for (j, (_, l)) in anchors.iter().enumerate() { l.external_data_update(Duration::from_f64_seconds(1e-4), None, i == j)?; }
+                self.advance(10_000_000); *true_ns += 10_000_000;
+                let (x, l) = &anchors[i];
+                self.measure_link(l, (0, *x), Direction::Forward, *true_ns)?;
+            }
+            for (_, l) in &anchors { l.external_data_update(Duration::from_f64_seconds(1e-4), None, true)?; }
+            let slewing = steered.iter().all(|x| match self.ctl.clock_offset(self.ids[x]) { Ok(o) => o.value < 10.0 && o.value > 5.0 * o.uncertainty, _ => false });
+            if slewing { break; }
+        }
+        let mut active = false;
+        for _ in 0..10 {
+            self.advance(100_000_000); *true_ns += 100_000_000;
+            self.measure_once(key, Direction::Forward, *true_ns)?;
+            self.advance(10_000_000); *true_ns += 10_000_000;
+            self.measure_once(key, Direction::Reverse, *true_ns)?;
+            active = self.links[&key].0.active()?;
+            if active { break; }
+        }
+        if std::env::var("VERIF_DEBUG3").is_ok() {
+            let est: Vec<String> = steered.iter().map(|x| format!("{x}:{:?} real {:e}", self.ctl.clock_offset(self.ids[x]).map(|o| (o.value, o.uncertainty)), (self.clocks[x].0.lock().unwrap().now - ts(*true_ns)).as_seconds())).collect();
+            eprintln!("ACTIVATE {key:?} steered={steered:?} others={others:?} active={active} est={est:?} calls={:?}", steered.iter().map(|x| self.clocks[x].0.lock().unwrap().calls.iter().rev().take(3).cloned().collect::<Vec<_>>()).collect::<Vec<_>>());
+        }
+        drop(anchors);
+        self.ctl.remove_external_clock(reference)?;
+        for k in &others { self.links[k].0.external_data_update(Duration::from_f64_seconds(1e-4), None, true)?; }
+        let _ = ends;
+        Ok(active)
+    }
     fn measure_once(&mut self, key: (u64, u64), dir: Direction, true_ns: i128) -> Result<(), AlgoError> {
         let ends = self.links[&key].1;
         let (from, to) = if dir == Direction::Forward { ends } else { (ends.1, ends.0) };
@@ -189,6 +254,8 @@ fn run_walk(walk: &[Value], seed: u64) -> (usize, Option<Value>, Vec<Value>) {
                 "AddClock" => {
                     let slot = exp["new"].as_u64().unwrap();
                     let c = new_clock(slot);
+                    let behind = w.links.values().filter(|l| l.2 && matches!(l.0.active(), Ok(true))).count() as u64;
+                    if behind > 0 { LATE.with(|x| x.set(x.get() + 1)); }
                     let id = w.ctl.add_clock(c.clone(), 1e-8 * slot as f64)?;
                     w.clocks.insert(slot, c);
                     w.ids.insert(slot, id);
@@ -203,7 +270,7 @@ fn run_walk(walk: &[Value], seed: u64) -> (usize, Option<Value>, Vec<Value>) {
                     let (x, y) = (a["a"].as_u64().unwrap(), a["b"].as_u64().unwrap());
                     let (ia, ib) = (w.id_of(x), w.id_of(y));
                     let l = if util::s(a, "k") == "tracked" { Ctl::create_tracked_link(w.ctl.clone(), ia, ib, 1e-3)? } else { Ctl::create_untracked_link(w.ctl.clone(), ia, ib)? };
-                    w.links.insert((x.min(y), x.max(y)), (l, (x, y)));
+                    w.links.insert((x.min(y), x.max(y)), (l, (x, y), util::s(a, "k") == "tracked"));
                     // the model orders link ends by id; keep the creation order for measurement directions
                     Ok(())
                 }
@@ -222,16 +289,45 @@ fn run_walk(walk: &[Value], seed: u64) -> (usize, Option<Value>, Vec<Value>) {
                     }
                     Ok(())
                 }
-                "Steer" => {
+                "Activate" => {
                     let l = &a["l"];
                     let key = (l["a"].as_u64().unwrap(), l["b"].as_u64().unwrap());
-                    // pure steering step: the link is cold (same direction only, so it never warms up): the measurement
-                    // itself leaves the estimates alone.  Time advances only when frequencies are observable.
+                    // Only in the numerically sane regime (see Steer): once two steered clocks without any external reference
+                    // have run away (estimates 1e50+, mock clocks stepped to the end of the time scale) no activation is
+                    // attempted; the step is then an ordinary Measure.
+                    let sane = w.clocks.iter().all(|(slot, c)| {
+                        let off = (c.0.lock().unwrap().now - ts(true_ns)).as_seconds();
+                        let est = w.ctl.clock_offset(w.ids[slot]).map(|o| o.value.is_finite() && o.value.abs() < 1e6).unwrap_or(false);
+                        off.abs() < 1e6 && est
+                    });
+                    if sane {
+                        let ok = w.activate(key, &mut true_ns)?;
+                        ACTIVATE.with(|x| { let mut x = x.borrow_mut(); x.0 += 1; if ok { x.1 += 1; } });
+                        info = json!({"link_reports_active": ok});
+                    } else {
+                        ACTIVATE.with(|x| x.borrow_mut().2 += 1);
+                        for _ in 0..6 {
+                            w.advance(125_000_000); true_ns += 125_000_000;
+                            w.measure_once(key, Direction::Forward, true_ns)?;
+                            w.advance(10_000_000); true_ns += 10_000_000;
+                            w.measure_once(key, Direction::Reverse, true_ns)?;
+                        }
+                    }
+                    Ok(())
+                }
+                "Steer" => {
+                    // pure steering step: one measurement over a fresh temporary tracked link system clock -> clock x.  The link
+                    // has no delay estimate, so the measurement itself leaves the estimates alone and only steer_clocks runs.
+                    // Time advances only when frequencies are observable.
+                    let x = a["x"].as_u64().unwrap();
+                    let (ia, ib) = (w.id_of(1), w.id_of(x));
+                    let tmp = Ctl::create_tracked_link(w.ctl.clone(), ia, ib, 1e-3)?;
                     let sys_before = w.reading(1, true_ns);
                     if w.freq_ok && w.rng.chance(1, 2) { w.advance(64_000_000_000); true_ns += 64_000_000_000; }
                     let dt = (w.reading(1, true_ns) - sys_before).as_seconds();
                     let steer_before: BTreeMap<u64, f64> = w.clocks.iter().map(|(s, c)| (*s, c.0.lock().unwrap().steer)).collect();
-                    w.measure_once(key, Direction::Forward, true_ns)?;
+                    w.measure_link(&tmp, (1, x), Direction::Forward, true_ns)?;
+                    drop(tmp);
                     let after = w.snapshot();
                     let mut detail = vec![];
                     let (mut degenerate, mut evaluated) = (0u64, 0u64);
@@ -245,8 +341,11 @@ fn run_walk(walk: &[Value], seed: u64) -> (usize, Option<Value>, Vec<Value>) {
                         // The relation is evaluated in the numerically sane regime only: with two steered clocks and no
                         // external reference the filter's covariance (initial variance 1e36) loses all precision and the
                         // estimates run away to 1e50 / NaN, where "moves by the applied step" is meaningless (steps saturate).
+                        // All clocks share one covariance matrix: a clock whose own numbers are still fine is dragged along
+                        // (0 x inf = NaN in progress_time) as soon as ANY clock has run away, so the whole step is skipped then.
                         let sane = |x: f64| x.is_finite() && x.abs() < 1e6;
-                        if !(sane(o0) && sane(f0) && sane(s)) { degenerate += 1; continue; }
+                        let all_sane = w.clocks.keys().all(|k| before.get(k).map(|b| sane(f64::from_bits(b[0])) && sane(f64::from_bits(b[2])) && f64::from_bits(b[1]).is_finite() && f64::from_bits(b[3]).is_finite()).unwrap_or(false));
+                        if !(all_sane && sane(o0) && sane(f0) && sane(s)) { degenerate += 1; continue; }
                         evaluated += 1;
                         if *slot != 1 && (o0 != 0.0 || s != 0.0) { NONTRIV.with(|x| x.set(x.get() + 1)); }
                         if *slot == 1 && (o0 != 0.0 || s != 0.0) { NONTRIV1.with(|x| x.set(x.get() + 1)); }
@@ -318,6 +417,7 @@ fn run_walk(walk: &[Value], seed: u64) -> (usize, Option<Value>, Vec<Value>) {
 
 thread_local! { static NONTRIV: std::cell::Cell<u64> = std::cell::Cell::new(0); static NONTRIV1: std::cell::Cell<u64> = std::cell::Cell::new(0); }
 thread_local! { static STEER: std::cell::RefCell<(u64, u64)> = std::cell::RefCell::new((0, 0)); }
+thread_local! { static ACTIVATE: std::cell::RefCell<(u64, u64, u64)> = std::cell::RefCell::new((0, 0, 0)); static LATE: std::cell::Cell<u64> = std::cell::Cell::new(0); }
 thread_local! { static STATS: std::cell::RefCell<(u64, u64)> = std::cell::RefCell::new((0, 0)); }
 
 #[test]
@@ -338,7 +438,9 @@ fn verif_estimator() {
     let (sf, sc) = STATS.with(|s| *s.borrow());
     // statistics line (not a walk result): how often the mock clocks were steered
     std::fs::write(format!("{}.stats", util::s(&job, "output")), json!({"set_frequency_calls": sf, "step_clock_calls": sc, "steer_relations_evaluated": STEER.with(|x| x.borrow().0), "steer_relations_skipped_degenerate": STEER.with(|x| x.borrow().1),
-        "steer_relations_nontrivial_system_clock": NONTRIV1.with(|x| x.get()), "steer_relations_nontrivial_other_clocks": NONTRIV.with(|x| x.get())}).to_string()).unwrap();
+        "steer_relations_nontrivial_system_clock": NONTRIV1.with(|x| x.get()), "steer_relations_nontrivial_other_clocks": NONTRIV.with(|x| x.get()),
+        "activations_attempted": ACTIVATE.with(|x| x.borrow().0), "activations_achieved": ACTIVATE.with(|x| x.borrow().1), "activations_skipped_degenerate": ACTIVATE.with(|x| x.borrow().2),
+        "clocks_added_behind_an_active_tracked_link": LATE.with(|x| x.get())}).to_string()).unwrap();
     out.finish();
 }
 
